@@ -114,7 +114,7 @@ GROUPS += [
     },
     {
         "id": "C07.sym", "property": "C07", "crate": "core", "harnesses": ["c07_next_probe_sym", "c07_reissue_probe_sym"],
-        "jobs": 4, "timeout_s": 900, "mem_gb": 12, "functions": STATE_FNS,
+        "jobs": 2, "timeout_s": 900, "mem_gb": 24, "functions": STATE_FNS,
         "bounds": "next_probe / reissue_probe with round_sequence, sequence (hence slot index), ttl, round, config ALL "
                   "symbolic; scalar post-conditions only; " + INV_TXT,
     },
